@@ -18,6 +18,7 @@ mod c12;
 mod c13;
 mod c14;
 mod c15;
+mod c16;
 
 type ReplayFn = fn(&Ctx, &J) -> Result<(), String>;
 type RunFn = fn(&Ctx);
@@ -39,6 +40,7 @@ fn table(prop: &str) -> Option<(RunFn, ReplayFn)> {
     "C13" => (c13::run, c13::replay),
     "C14" => (c14::run, c14::replay),
     "C15" => (c15::run, c15::replay),
+    "C16" => (c16::run, c16::replay),
     _ => return None,
   })
 }
